@@ -7,6 +7,10 @@
 Require Import LV.Common.Bytes LV.Model.SendQueueModel.
 Local Open Scope Z_scope.
 
+(* XEP-0198 ack request as libstrophe words it: <r xmlns='urn:xmpp:sm:3'/> *)
+Definition spec_req_ack : list Z :=
+  [60;114;32;120;109;108;110;115;61;39;117;114;110;58;120;109;112;112;58;115;109;58;51;39;47;62].
+
 Record entry := mkE {
   e_id : nat;                 (* ghost identity *)
   e_owner : owner;
